@@ -11,13 +11,25 @@
    uv__io_start/stop(POLLOUT), uv__io_close, uv__run_pending, one iteration of
    uv_run(UV_RUN_NOWAIT), uv_close/uv__finish_close for a stream.
 
+   Also the connecting phase: uv_write2/uv_try_write2 with connect_req set,
+   uv__stream_connect 1246-1300 (delayed_error / SO_ERROR, EINPROGRESS return, the
+   POLLOUT decision, connect callback, flush with UV_ECANCELED on failure), the
+   connect_req part of uv__stream_destroy, and the tails of uv__tcp_connect /
+   uv_pipe_connect2 that define the start state ([init] with [Some ...]).
+
    One stream.  Payload bytes are abstract: byte [i] of request [id] is the
    pair (id, i); a buffer is its length.  The OS is an oracle: a list of
    answers consumed by write(2)/writev(2) in order (exhausted = the kernel
    accepts everything offered).  A callback's behaviour is a script: the k-th
    callback (write or shutdown) executes the operation list [beh k].
    The trace is kept in the state (newest event first).
-   Not here: connect_req (C07), send_handle (C07), uv_write2's ENOMEM (C16). *)
+   A write request may carry a send_handle (uv_write2 on an IPC pipe; one handle to
+   send, which can be closed): uv__check_before_write's send_handle part, the
+   uv__is_closing(send_handle) test and the SCM_RIGHTS decision of uv__try_write, and
+   the `req->send_handle = NULL` of uv__write after the first accepted sendmsg.
+   Not here: the connect(2) call itself and listening/accepting (C07), what the
+   receiving side does with a descriptor (C07), uv_try_write2's handle (C07),
+   uv_write2's ENOMEM (C16). *)
 From UV Require Import Lib.Base.
 
 Local Open Scope N_scope.
@@ -39,7 +51,8 @@ Record req := mkReq {
   r_widx : nat;         (* req->write_index *)
   r_off : N;            (* bytes the OS accepted so far (ghost) *)
   r_err : Z;            (* req->error *)
-  r_freed : bool        (* req->bufs == NULL *)
+  r_freed : bool;       (* req->bufs == NULL *)
+  r_sh : bool           (* req->send_handle != NULL *)
 }.
 
 Inductive event :=
@@ -54,7 +67,10 @@ Inductive event :=
 | EShutCb (status : Z)
 | ECloseCb
 | EQ (qsz : N)
-| EConnCb (status : Z).                   (* connect_cb *)                           (* uv_stream_get_write_queue_size after a top-level step *)
+| EConnCb (status : Z)                    (* connect_cb *)
+| EWrite2 (id : nat)                       (* the uv_write call just traced was uv_write2 with a send_handle *)
+| EFd (id : nat)                           (* the sendmsg that accepted the next chunk carried SCM_RIGHTS *)
+| EFdFail (id : nat).                      (* a sendmsg carrying SCM_RIGHTS failed (EAGAIN or error) *)                           (* uv_stream_get_write_queue_size after a top-level step *)
 
 Record st := mkSt {
   wq : list req;        (* stream->write_queue *)
@@ -78,36 +94,40 @@ Record st := mkSt {
   tr : list event;      (* newest first *)
   connecting : bool;    (* stream->connect_req != NULL *)
   derr : Z;             (* stream->delayed_error (0 or -errno) *)
-  sockerr : list Z      (* answers of getsockopt(SO_ERROR) still to come (errno values, 115 = EINPROGRESS) *)
+  sockerr : list Z;     (* answers of getsockopt(SO_ERROR) still to come (errno values, 115 = EINPROGRESS) *)
+  ipc : bool;           (* the ipc field of the uv_pipe_t *)
+  sh_open : bool        (* the handle offered to uv_write2: its fd >= 0 and it is not closing *)
 }.
 
-Definition set_wq v s := mkSt v (cq s) (pq s) (wqs s) (shutreq s) (writable s) (shut s) (closing s) (closed s) (blocking s) (fdopen s) (armed s) (fed s) (oracle s) (shutans s) (pollw s) (next_id s) (cbn s) (tr s) (connecting s) (derr s) (sockerr s).
-Definition set_cq v s := mkSt (wq s) v (pq s) (wqs s) (shutreq s) (writable s) (shut s) (closing s) (closed s) (blocking s) (fdopen s) (armed s) (fed s) (oracle s) (shutans s) (pollw s) (next_id s) (cbn s) (tr s) (connecting s) (derr s) (sockerr s).
-Definition set_pq v s := mkSt (wq s) (cq s) v (wqs s) (shutreq s) (writable s) (shut s) (closing s) (closed s) (blocking s) (fdopen s) (armed s) (fed s) (oracle s) (shutans s) (pollw s) (next_id s) (cbn s) (tr s) (connecting s) (derr s) (sockerr s).
-Definition set_wqs v s := mkSt (wq s) (cq s) (pq s) v (shutreq s) (writable s) (shut s) (closing s) (closed s) (blocking s) (fdopen s) (armed s) (fed s) (oracle s) (shutans s) (pollw s) (next_id s) (cbn s) (tr s) (connecting s) (derr s) (sockerr s).
-Definition set_shutreq v s := mkSt (wq s) (cq s) (pq s) (wqs s) v (writable s) (shut s) (closing s) (closed s) (blocking s) (fdopen s) (armed s) (fed s) (oracle s) (shutans s) (pollw s) (next_id s) (cbn s) (tr s) (connecting s) (derr s) (sockerr s).
-Definition set_writable v s := mkSt (wq s) (cq s) (pq s) (wqs s) (shutreq s) v (shut s) (closing s) (closed s) (blocking s) (fdopen s) (armed s) (fed s) (oracle s) (shutans s) (pollw s) (next_id s) (cbn s) (tr s) (connecting s) (derr s) (sockerr s).
-Definition set_shut v s := mkSt (wq s) (cq s) (pq s) (wqs s) (shutreq s) (writable s) v (closing s) (closed s) (blocking s) (fdopen s) (armed s) (fed s) (oracle s) (shutans s) (pollw s) (next_id s) (cbn s) (tr s) (connecting s) (derr s) (sockerr s).
-Definition set_closing v s := mkSt (wq s) (cq s) (pq s) (wqs s) (shutreq s) (writable s) (shut s) v (closed s) (blocking s) (fdopen s) (armed s) (fed s) (oracle s) (shutans s) (pollw s) (next_id s) (cbn s) (tr s) (connecting s) (derr s) (sockerr s).
-Definition set_closed v s := mkSt (wq s) (cq s) (pq s) (wqs s) (shutreq s) (writable s) (shut s) (closing s) v (blocking s) (fdopen s) (armed s) (fed s) (oracle s) (shutans s) (pollw s) (next_id s) (cbn s) (tr s) (connecting s) (derr s) (sockerr s).
-Definition set_blocking v s := mkSt (wq s) (cq s) (pq s) (wqs s) (shutreq s) (writable s) (shut s) (closing s) (closed s) v (fdopen s) (armed s) (fed s) (oracle s) (shutans s) (pollw s) (next_id s) (cbn s) (tr s) (connecting s) (derr s) (sockerr s).
-Definition set_fdopen v s := mkSt (wq s) (cq s) (pq s) (wqs s) (shutreq s) (writable s) (shut s) (closing s) (closed s) (blocking s) v (armed s) (fed s) (oracle s) (shutans s) (pollw s) (next_id s) (cbn s) (tr s) (connecting s) (derr s) (sockerr s).
-Definition set_armed v s := mkSt (wq s) (cq s) (pq s) (wqs s) (shutreq s) (writable s) (shut s) (closing s) (closed s) (blocking s) (fdopen s) v (fed s) (oracle s) (shutans s) (pollw s) (next_id s) (cbn s) (tr s) (connecting s) (derr s) (sockerr s).
-Definition set_fed v s := mkSt (wq s) (cq s) (pq s) (wqs s) (shutreq s) (writable s) (shut s) (closing s) (closed s) (blocking s) (fdopen s) (armed s) v (oracle s) (shutans s) (pollw s) (next_id s) (cbn s) (tr s) (connecting s) (derr s) (sockerr s).
-Definition set_oracle v s := mkSt (wq s) (cq s) (pq s) (wqs s) (shutreq s) (writable s) (shut s) (closing s) (closed s) (blocking s) (fdopen s) (armed s) (fed s) v (shutans s) (pollw s) (next_id s) (cbn s) (tr s) (connecting s) (derr s) (sockerr s).
-Definition set_shutans v s := mkSt (wq s) (cq s) (pq s) (wqs s) (shutreq s) (writable s) (shut s) (closing s) (closed s) (blocking s) (fdopen s) (armed s) (fed s) (oracle s) v (pollw s) (next_id s) (cbn s) (tr s) (connecting s) (derr s) (sockerr s).
-Definition set_pollw v s := mkSt (wq s) (cq s) (pq s) (wqs s) (shutreq s) (writable s) (shut s) (closing s) (closed s) (blocking s) (fdopen s) (armed s) (fed s) (oracle s) (shutans s) v (next_id s) (cbn s) (tr s) (connecting s) (derr s) (sockerr s).
-Definition set_next_id v s := mkSt (wq s) (cq s) (pq s) (wqs s) (shutreq s) (writable s) (shut s) (closing s) (closed s) (blocking s) (fdopen s) (armed s) (fed s) (oracle s) (shutans s) (pollw s) v (cbn s) (tr s) (connecting s) (derr s) (sockerr s).
-Definition set_cbn v s := mkSt (wq s) (cq s) (pq s) (wqs s) (shutreq s) (writable s) (shut s) (closing s) (closed s) (blocking s) (fdopen s) (armed s) (fed s) (oracle s) (shutans s) (pollw s) (next_id s) v (tr s) (connecting s) (derr s) (sockerr s).
-Definition set_connecting v s := mkSt (wq s) (cq s) (pq s) (wqs s) (shutreq s) (writable s) (shut s) (closing s) (closed s) (blocking s) (fdopen s) (armed s) (fed s) (oracle s) (shutans s) (pollw s) (next_id s) (cbn s) (tr s) v (derr s) (sockerr s).
-Definition set_derr v s := mkSt (wq s) (cq s) (pq s) (wqs s) (shutreq s) (writable s) (shut s) (closing s) (closed s) (blocking s) (fdopen s) (armed s) (fed s) (oracle s) (shutans s) (pollw s) (next_id s) (cbn s) (tr s) (connecting s) v (sockerr s).
-Definition set_sockerr v s := mkSt (wq s) (cq s) (pq s) (wqs s) (shutreq s) (writable s) (shut s) (closing s) (closed s) (blocking s) (fdopen s) (armed s) (fed s) (oracle s) (shutans s) (pollw s) (next_id s) (cbn s) (tr s) (connecting s) (derr s) v.
-Definition ev (e : event) s := mkSt (wq s) (cq s) (pq s) (wqs s) (shutreq s) (writable s) (shut s) (closing s) (closed s) (blocking s) (fdopen s) (armed s) (fed s) (oracle s) (shutans s) (pollw s) (next_id s) (cbn s) (e :: tr s) (connecting s) (derr s) (sockerr s).
+Definition set_wq v s := mkSt v (cq s) (pq s) (wqs s) (shutreq s) (writable s) (shut s) (closing s) (closed s) (blocking s) (fdopen s) (armed s) (fed s) (oracle s) (shutans s) (pollw s) (next_id s) (cbn s) (tr s) (connecting s) (derr s) (sockerr s) (ipc s) (sh_open s).
+Definition set_cq v s := mkSt (wq s) v (pq s) (wqs s) (shutreq s) (writable s) (shut s) (closing s) (closed s) (blocking s) (fdopen s) (armed s) (fed s) (oracle s) (shutans s) (pollw s) (next_id s) (cbn s) (tr s) (connecting s) (derr s) (sockerr s) (ipc s) (sh_open s).
+Definition set_pq v s := mkSt (wq s) (cq s) v (wqs s) (shutreq s) (writable s) (shut s) (closing s) (closed s) (blocking s) (fdopen s) (armed s) (fed s) (oracle s) (shutans s) (pollw s) (next_id s) (cbn s) (tr s) (connecting s) (derr s) (sockerr s) (ipc s) (sh_open s).
+Definition set_wqs v s := mkSt (wq s) (cq s) (pq s) v (shutreq s) (writable s) (shut s) (closing s) (closed s) (blocking s) (fdopen s) (armed s) (fed s) (oracle s) (shutans s) (pollw s) (next_id s) (cbn s) (tr s) (connecting s) (derr s) (sockerr s) (ipc s) (sh_open s).
+Definition set_shutreq v s := mkSt (wq s) (cq s) (pq s) (wqs s) v (writable s) (shut s) (closing s) (closed s) (blocking s) (fdopen s) (armed s) (fed s) (oracle s) (shutans s) (pollw s) (next_id s) (cbn s) (tr s) (connecting s) (derr s) (sockerr s) (ipc s) (sh_open s).
+Definition set_writable v s := mkSt (wq s) (cq s) (pq s) (wqs s) (shutreq s) v (shut s) (closing s) (closed s) (blocking s) (fdopen s) (armed s) (fed s) (oracle s) (shutans s) (pollw s) (next_id s) (cbn s) (tr s) (connecting s) (derr s) (sockerr s) (ipc s) (sh_open s).
+Definition set_shut v s := mkSt (wq s) (cq s) (pq s) (wqs s) (shutreq s) (writable s) v (closing s) (closed s) (blocking s) (fdopen s) (armed s) (fed s) (oracle s) (shutans s) (pollw s) (next_id s) (cbn s) (tr s) (connecting s) (derr s) (sockerr s) (ipc s) (sh_open s).
+Definition set_closing v s := mkSt (wq s) (cq s) (pq s) (wqs s) (shutreq s) (writable s) (shut s) v (closed s) (blocking s) (fdopen s) (armed s) (fed s) (oracle s) (shutans s) (pollw s) (next_id s) (cbn s) (tr s) (connecting s) (derr s) (sockerr s) (ipc s) (sh_open s).
+Definition set_closed v s := mkSt (wq s) (cq s) (pq s) (wqs s) (shutreq s) (writable s) (shut s) (closing s) v (blocking s) (fdopen s) (armed s) (fed s) (oracle s) (shutans s) (pollw s) (next_id s) (cbn s) (tr s) (connecting s) (derr s) (sockerr s) (ipc s) (sh_open s).
+Definition set_blocking v s := mkSt (wq s) (cq s) (pq s) (wqs s) (shutreq s) (writable s) (shut s) (closing s) (closed s) v (fdopen s) (armed s) (fed s) (oracle s) (shutans s) (pollw s) (next_id s) (cbn s) (tr s) (connecting s) (derr s) (sockerr s) (ipc s) (sh_open s).
+Definition set_fdopen v s := mkSt (wq s) (cq s) (pq s) (wqs s) (shutreq s) (writable s) (shut s) (closing s) (closed s) (blocking s) v (armed s) (fed s) (oracle s) (shutans s) (pollw s) (next_id s) (cbn s) (tr s) (connecting s) (derr s) (sockerr s) (ipc s) (sh_open s).
+Definition set_armed v s := mkSt (wq s) (cq s) (pq s) (wqs s) (shutreq s) (writable s) (shut s) (closing s) (closed s) (blocking s) (fdopen s) v (fed s) (oracle s) (shutans s) (pollw s) (next_id s) (cbn s) (tr s) (connecting s) (derr s) (sockerr s) (ipc s) (sh_open s).
+Definition set_fed v s := mkSt (wq s) (cq s) (pq s) (wqs s) (shutreq s) (writable s) (shut s) (closing s) (closed s) (blocking s) (fdopen s) (armed s) v (oracle s) (shutans s) (pollw s) (next_id s) (cbn s) (tr s) (connecting s) (derr s) (sockerr s) (ipc s) (sh_open s).
+Definition set_oracle v s := mkSt (wq s) (cq s) (pq s) (wqs s) (shutreq s) (writable s) (shut s) (closing s) (closed s) (blocking s) (fdopen s) (armed s) (fed s) v (shutans s) (pollw s) (next_id s) (cbn s) (tr s) (connecting s) (derr s) (sockerr s) (ipc s) (sh_open s).
+Definition set_shutans v s := mkSt (wq s) (cq s) (pq s) (wqs s) (shutreq s) (writable s) (shut s) (closing s) (closed s) (blocking s) (fdopen s) (armed s) (fed s) (oracle s) v (pollw s) (next_id s) (cbn s) (tr s) (connecting s) (derr s) (sockerr s) (ipc s) (sh_open s).
+Definition set_pollw v s := mkSt (wq s) (cq s) (pq s) (wqs s) (shutreq s) (writable s) (shut s) (closing s) (closed s) (blocking s) (fdopen s) (armed s) (fed s) (oracle s) (shutans s) v (next_id s) (cbn s) (tr s) (connecting s) (derr s) (sockerr s) (ipc s) (sh_open s).
+Definition set_next_id v s := mkSt (wq s) (cq s) (pq s) (wqs s) (shutreq s) (writable s) (shut s) (closing s) (closed s) (blocking s) (fdopen s) (armed s) (fed s) (oracle s) (shutans s) (pollw s) v (cbn s) (tr s) (connecting s) (derr s) (sockerr s) (ipc s) (sh_open s).
+Definition set_cbn v s := mkSt (wq s) (cq s) (pq s) (wqs s) (shutreq s) (writable s) (shut s) (closing s) (closed s) (blocking s) (fdopen s) (armed s) (fed s) (oracle s) (shutans s) (pollw s) (next_id s) v (tr s) (connecting s) (derr s) (sockerr s) (ipc s) (sh_open s).
+Definition set_connecting v s := mkSt (wq s) (cq s) (pq s) (wqs s) (shutreq s) (writable s) (shut s) (closing s) (closed s) (blocking s) (fdopen s) (armed s) (fed s) (oracle s) (shutans s) (pollw s) (next_id s) (cbn s) (tr s) v (derr s) (sockerr s) (ipc s) (sh_open s).
+Definition set_derr v s := mkSt (wq s) (cq s) (pq s) (wqs s) (shutreq s) (writable s) (shut s) (closing s) (closed s) (blocking s) (fdopen s) (armed s) (fed s) (oracle s) (shutans s) (pollw s) (next_id s) (cbn s) (tr s) (connecting s) v (sockerr s) (ipc s) (sh_open s).
+Definition set_sockerr v s := mkSt (wq s) (cq s) (pq s) (wqs s) (shutreq s) (writable s) (shut s) (closing s) (closed s) (blocking s) (fdopen s) (armed s) (fed s) (oracle s) (shutans s) (pollw s) (next_id s) (cbn s) (tr s) (connecting s) (derr s) v (ipc s) (sh_open s).
+Definition set_ipc v s := mkSt (wq s) (cq s) (pq s) (wqs s) (shutreq s) (writable s) (shut s) (closing s) (closed s) (blocking s) (fdopen s) (armed s) (fed s) (oracle s) (shutans s) (pollw s) (next_id s) (cbn s) (tr s) (connecting s) (derr s) (sockerr s) v (sh_open s).
+Definition set_sh_open v s := mkSt (wq s) (cq s) (pq s) (wqs s) (shutreq s) (writable s) (shut s) (closing s) (closed s) (blocking s) (fdopen s) (armed s) (fed s) (oracle s) (shutans s) (pollw s) (next_id s) (cbn s) (tr s) (connecting s) (derr s) (sockerr s) (ipc s) v.
+Definition ev (e : event) s := mkSt (wq s) (cq s) (pq s) (wqs s) (shutreq s) (writable s) (shut s) (closing s) (closed s) (blocking s) (fdopen s) (armed s) (fed s) (oracle s) (shutans s) (pollw s) (next_id s) (cbn s) (e :: tr s) (connecting s) (derr s) (sockerr s) (ipc s) (sh_open s).
 
 (* How the stream came to be.  [None]: opened connected with uv_pipe_open /
    uv_tcp_open on a read-write descriptor.  [Some (tcp, cres, so)]: right after
    uv_tcp_connect (tcp = true) / uv_pipe_connect (tcp = false) on a fresh handle,
-   where connect(2) returned [cres] (0 or -errno) and [so] are the answers
+   where connect(2) returned 0 ([cres = None]) or failed with errno e ([Some e]) and [so] are the answers
    getsockopt(SO_ERROR) will give.
    uv__tcp_connect: flags READABLE|WRITABLE set by maybe_new_socket; EINPROGRESS is
    no error, ECONNREFUSED becomes delayed_error; connect_req set; POLLOUT started;
@@ -116,23 +136,26 @@ Definition ev (e : event) s := mkSt (wq s) (cq s) (pq s) (wqs s) (shutreq s) (wr
    uv_pipe_connect2: on r == -1 && errno != EINPROGRESS: delayed_error = -errno, the
    flags are not set, POLLOUT not started, uv__io_feed; else uv__stream_open sets
    READABLE|WRITABLE and POLLOUT is started. *)
-Definition conn_cfg := option (bool * Z * list Z).
+Definition conn_cfg := option (bool * option positive * list Z).
 
 Definition EINPROGRESS : Z := 115%Z.
-Definition ECONNREFUSED : Z := 111%Z.
 
-Definition init (blk : bool) (o : list answer) (sa : Z) (pw : list bool) (c : conn_cfg) : st :=
+(* connect(2) returned 0 or failed with EINPROGRESS: no delayed error *)
+Definition conn_pending_ok (cres : option positive) : bool :=
+  match cres with None => true | Some e => Pos.eqb e 115 end.
+Definition conn_derr (cres : option positive) : Z :=
+  match cres with None => 0%Z | Some e => Zneg e end.
+
+Definition init (blk : bool) (o : list answer) (sa : Z) (pw : list bool) (c : conn_cfg) (ip : bool) : st :=
   match c with
-  | None => mkSt [] [] [] 0 false true false false false blk true false false o sa pw O O [] false 0%Z []
+  | None => mkSt [] [] [] 0 false true false false false blk true false false o sa pw O O [] false 0%Z [] ip true
   | Some (tcp, cres, so) =>
-      let inprog := Z.eqb cres 0 || Z.eqb cres (- EINPROGRESS) in
-      if tcp then
-        let de := if inprog then 0%Z else cres in
-        mkSt [] [] [] 0 false true false false false blk true true (negb (Z.eqb de 0)) o sa pw O O [] true de so
-      else if inprog then
-        mkSt [] [] [] 0 false true false false false blk true true false o sa pw O O [] true 0%Z so
-      else
-        mkSt [] [] [] 0 false false false false false blk true false true o sa pw O O [] true cres so
+      if conn_pending_ok cres then
+        mkSt [] [] [] 0 false true false false false blk true true false o sa pw O O [] true 0%Z so ip true
+      else if tcp then    (* ECONNREFUSED: delayed_error, POLLOUT started, watcher fed *)
+        mkSt [] [] [] 0 false true false false false blk true true true o sa pw O O [] true (conn_derr cres) so ip true
+      else                (* pipe: flags not set, POLLOUT not started, watcher fed *)
+        mkSt [] [] [] 0 false false false false false blk true false true o sa pw O O [] true (conn_derr cres) so ip true
   end.
 
 Fixpoint sumN (l : list N) : N :=
@@ -161,14 +184,17 @@ Fixpoint upd_loop (bufs : list N) (n : N) : list N * nat :=
 Definition req_update (r : req) (n : N) : req :=
   let '(tl, k) := upd_loop (skipn (r_widx r) (r_bufs r)) n in
   mkReq (r_id r) (r_total r) (firstn (r_widx r) (r_bufs r) ++ tl)
-        (r_widx r + k)%nat (r_off r + n) (r_err r) (r_freed r).
+        (r_widx r + k)%nat (r_off r + n) (r_err r) (r_freed r)
+        false.     (* req->send_handle = NULL, which uv__write does right before the call *)
 
 Definition req_done (r : req) : bool := Nat.eqb (r_widx r) (length (r_bufs r)).
 
 Definition set_err (e : Z) (r : req) : req :=
-  mkReq (r_id r) (r_total r) (r_bufs r) (r_widx r) (r_off r) e (r_freed r).
+  mkReq (r_id r) (r_total r) (r_bufs r) (r_widx r) (r_off r) e (r_freed r) (r_sh r).
 Definition set_freed (b : bool) (r : req) : req :=
-  mkReq (r_id r) (r_total r) (r_bufs r) (r_widx r) (r_off r) (r_err r) b.
+  mkReq (r_id r) (r_total r) (r_bufs r) (r_widx r) (r_off r) (r_err r) b (r_sh r).
+Definition clear_sh (r : req) : req :=
+  mkReq (r_id r) (r_total r) (r_bufs r) (r_widx r) (r_off r) (r_err r) (r_freed r) false.
 
 (* The system-call part of uv__try_write: do n = writev(...) while (n == -1 &&
    errno == EINTR); then EAGAIN/EWOULDBLOCK(11)/ENOBUFS(105) -> UV_EAGAIN,
@@ -201,13 +227,20 @@ Fixpoint write_loop (fuel count : nat) (s : st) : st :=
     match wq s with
     | [] => s
     | r :: rest =>
+      if r_sh r && negb (sh_open s) then
+        (* uv__try_write: if (uv__is_closing(send_handle)) return UV_EBADF;  -> goto error *)
+        set_armed false (finish_head (set_err UV_EBADF r) rest s)
+      else
       let '(res, o') := sys_write (oracle s) (offered (skipn (r_widx r) (r_bufs r))) in
       let s0 := set_oracle o' s in
       match res with
       | WN n =>
+          (* the sendmsg carried the SCM_RIGHTS message iff req->send_handle != NULL;
+             then req->send_handle = NULL (inside req_update) *)
+          let sf := if r_sh r then ev (EFd (r_id r)) s0 else s0 in
           let r' := req_update r n in
           let s1 := ev (EChunk (r_id r) (r_off r) n)
-                       (set_wqs (wqs s0 - n) (set_wq (r' :: rest) s0)) in
+                       (set_wqs (wqs sf - n) (set_wq (r' :: rest) sf)) in
           if req_done r' then
             let s2 := finish_head r' rest s1 in
             match count with
@@ -217,8 +250,10 @@ Fixpoint write_loop (fuel count : nat) (s : st) : st :=
           else if blocking s1 then write_loop f count s1
           else set_armed true s1
       | WAgain =>
+          let s0 := if r_sh r then ev (EFdFail (r_id r)) s0 else s0 in   (* send_handle stays *)
           if blocking s0 then write_loop f count s0 else set_armed true s0
       | WErr code =>
+          let s0 := if r_sh r then ev (EFdFail (r_id r)) s0 else s0 in
           set_armed false (finish_head (set_err code r) rest s0)
       end
     end
@@ -236,6 +271,8 @@ Inductive op :=
 | OTry (bufs : list N)
 | OShutdown
 | OClose
+| OWrite2 (bufs : list N)     (* uv_write2 with the send handle *)
+| OCloseSend                  (* uv_close on the send handle *)
 | ORun.                 (* one uv_run(UV_RUN_NOWAIT); ignored inside callbacks *)
 
 Definition check_before_write (s : st) : option Z :=
@@ -252,9 +289,35 @@ Definition api_write (s : st) (bufs : list N) : st :=
   | Some e => ev (ERet id e) s
   | None =>
       let empty_queue := wqs s =? 0 in
-      let r := mkReq id total bufs O 0 0%Z false in
+      let r := mkReq id total bufs O 0 0%Z false false in
       let s1 := set_wq (wq s ++ [r]) (set_wqs (wqs s + total) s) in
       let s2 := if connecting s1 then s1                 (* still connecting, do nothing *)
+                else if empty_queue then uv_write_queue s1 else set_armed true s1 in
+      ev (ERet id 0%Z) s2
+  end.
+
+Definition UV_EINVAL : Z := (-22)%Z.
+
+(* uv__check_before_write with send_handle != NULL *)
+Definition check_before_write2 (s : st) : option Z :=
+  if negb (fdopen s) then Some UV_EBADF
+  else if negb (writable s) then Some UV_EPIPE
+  else if negb (ipc s) then Some UV_EINVAL         (* not a pipe opened for IPC *)
+  else if negb (sh_open s) then Some UV_EBADF      (* uv__handle_fd(send_handle) < 0 *)
+  else None.
+
+(* uv_write2(req, stream, bufs, nbufs, send_handle, cb) with send_handle != NULL *)
+Definition api_write2 (s : st) (bufs : list N) : st :=
+  let id := next_id s in
+  let total := sumN bufs in
+  let s := ev (EWrite2 id) (ev (EWrite id total) (set_next_id (S id) s)) in
+  match check_before_write2 s with
+  | Some e => ev (ERet id e) s
+  | None =>
+      let empty_queue := wqs s =? 0 in
+      let r := mkReq id total bufs O 0 0%Z false true in
+      let s1 := set_wq (wq s ++ [r]) (set_wqs (wqs s + total) s) in
+      let s2 := if connecting s1 then s1
                 else if empty_queue then uv_write_queue s1 else set_armed true s1 in
       ev (ERet id 0%Z) s2
   end.
@@ -295,6 +358,8 @@ Definition api (s : st) (o : op) : st :=
   | OTry bufs => api_try s bufs
   | OShutdown => api_shutdown s
   | OClose => api_close s
+  | OWrite2 bufs => api_write2 s bufs
+  | OCloseSend => set_sh_open false s
   | ORun => s
   end.
 
@@ -373,8 +438,8 @@ Definition stream_io (s : st) : st :=
 (* uv__finish_close -> uv__stream_destroy, close_cb *)
 Definition destroy (s : st) : st :=
   let s0 := set_closed true s in
-  let s1 := if connecting s0                                (* connect_req->cb(connect_req, UV_ECANCELED) *)
-            then run_cb (ev (EConnCb UV_ECANCELED) (set_connecting false s0)) else s0 in
+  let s1 := if connecting s0         (* connect_req->cb(connect_req, UV_ECANCELED); connect_req = NULL; *)
+            then set_connecting false (run_cb (ev (EConnCb UV_ECANCELED) s0)) else s0 in
   ev ECloseCb (drain (write_callbacks (flush s1))).
 
 (* uv__run_pending for this watcher *)
